@@ -854,7 +854,7 @@ func (s *SMT) VerifyProof(k []byte, v []byte, validateMembership bool, root []by
 		gcp := new(key)
 		// calculate the GCP between the node and the sibling based on the length of
 		// the least significant bits to avoid out of bounds errors
-		if currentKey.totalBits() < currentKey.totalBits() {
+		if nodeKey.totalBits() < currentKey.totalBits() {
 			currentKey.greatestCommonPrefix(new(int), gcp, nodeKey)
 		} else {
 			nodeKey.greatestCommonPrefix(new(int), gcp, currentKey)
